@@ -6,7 +6,7 @@ import PMV.Model.Algebra
    operand   := (shape numer denom (v …) mask)       v = "n" | "n/d", flat row-major over
                                                        shape+numer+denom; mask = T | F | (bits)
    answer    := (shape numer denom (v …) (bits))     masked elements print "_" for every component
-   mode      := x (values printed exactly) | q (values printed as floor(v*2^16 + 1/2))
+   mode      := x (values printed exactly) | q (values printed as floor(v*2^16 + 1/2)) | m (values printed as ".")
 -/
 namespace Drv.C16
 open PMV PMV.Algebra Drv
@@ -28,6 +28,7 @@ def Sx.rats? (x : Sx) : Option (List Rat) := do
 
 def ratSx (mode : String) (r : Rat) : Sx :=
   if mode == "q" then .atom (toString (r * 65536 + (1 : Rat) / 2).floor)
+  else if mode == "m" then .atom "."       -- shapes and mask only (values judged by the oracle)
   else if r.den = 1 then .atom (toString r.num) else .atom s!"{r.num}/{r.den}"
 
 def parseOpd : Sx → Option (Opd Rat)
